@@ -35,7 +35,7 @@ class Opaque(object):
 KINDS = (lambda i: i, lambda i: "s%d" % i, lambda i: i + 0.5, lambda i: (i, "t"), lambda i: Fraction(i, 7),
          lambda i: Opaque(i), lambda i: [i], lambda i: complex(i, 1), lambda i: b"b%d" % i)
 
-PADS = ("float0", "none", "sentinel", "default")
+PADS = ("float0", "none", "sentinel", "default", "tuple", "emptytuple")
 
 
 class Falsy(object):
@@ -69,6 +69,10 @@ def make_pad(kind):
         return 0.0
     if kind == "none":
         return None
+    if kind == "tuple":
+        return (Opaque(7), Opaque(8))        # a pad value that is itself iterable is still ONE pad value
+    if kind == "emptytuple":
+        return tuple([])
     return Opaque(0)
 
 
